@@ -40,8 +40,32 @@ const KNOWN: [&str; 30] = ["ConstantValue", "Code", "StackMapTable", "Exceptions
 /// `ClassFile::write` into an arbitrary `io::Write` must deliver what `to_bytes()` returns ("the announced length equals the number
 /// of bytes written"): every case also writes into a writer that accepts only a few bytes per call (legal for any `Write`; a
 /// `write` where `write_all` is needed loses bytes only there, a `Vec<u8>` takes everything).
+/// a sink that takes `room` bytes and then fails (a full disk, a closed pipe, a buffer that is too short)
+struct FullAfter { room: usize, taken: usize }
+impl std::io::Write for FullAfter {
+    fn write(&mut self, buf: &[u8]) -> std::io::Result<usize> {
+        if buf.is_empty() { return Ok(0); }
+        let n = buf.len().min(self.room - self.taken);
+        if n == 0 { return Err(std::io::Error::new(std::io::ErrorKind::StorageFull, "sink is full")); }
+        self.taken += n; Ok(n)
+    }
+    fn flush(&mut self) -> std::io::Result<()> { Ok(()) }
+}
+
 fn write_entry_point(rep: &mut Report, v: &ClassFile, to_bytes: &[u8], len: usize, ctx: &dyn Fn() -> Value) {
     let seed = common::rng::fnv(to_bytes);
+    // every fourth value also goes into a sink that is full before the last byte (room = length - 1, - 7, half, 0): `Ok` would announce
+    // `length()` bytes as written although fewer were taken
+    if seed % 4 == 0 && len > 0 {
+        let room = match (seed >> 8) % 4 { 0 => len - 1, 1 => len.saturating_sub(7), 2 => len / 2, _ => 0 };
+        let r = guard(|| { let mut w = FullAfter { room, taken: 0 }; v.write(&mut w).map(|_| w.taken).map_err(|e| e.to_string()) });
+        rep.count("entry.write(sink that is full before the end)");
+        match r {
+            Err(p) => rep.violation(format!("C20 write(writer) panics: {}", p.site()), json!({"panic": p.message, "ctx": ctx()})),
+            Ok(Ok(taken)) => rep.violation("C20 write(writer) returns Ok although the sink took fewer bytes than length()", json!({"length": len, "taken_by_the_sink": taken, "room": room, "ctx": ctx()})),
+            Ok(Err(_)) => rep.count("entry.write.full_sink_reported_as_error"),
+        }
+    }
     let r = guard(|| { let mut w = common::io::ChunkedWriter::new(seed, 1 + (seed % 97) as usize); v.write(&mut w).map(|_| (w.data, w.short_writes)).map_err(|e| e.to_string()) });
     rep.count("entry.write(short-write writer)");
     match r {
